@@ -361,11 +361,12 @@ Definition enc_wobs (ctrls : list Z) (s : wstate) (o : list wout) : list Z :=
   flat_map (fun c => 120 :: c :: outs_to c o) ctrls ++ [121] ++ outs_prod o
   ++ [122; b2z (existsb (fun x => match x with WShutdown => true | _ => false end) o)] ++ enc_wstate s.
 
-Fixpoint wtrace (ctrls : list Z) (s : wstate) (ins : list win) : list (list Z) :=
+(* each input comes with the companions whose mailboxes the harness observes at that step *)
+Fixpoint wtrace (s : wstate) (ins : list (list Z * win)) : list (list Z) :=
   match ins with
   | [] => []
-  | i :: t => let '(s', o) := wp_step s i in enc_wobs ctrls s' o :: wtrace ctrls s' t
+  | (ctrls, i) :: t => let '(s', o) := wp_step s i in enc_wobs ctrls s' o :: wtrace s' t
   end.
 
-Definition wfull_trace (ctrls : list Z) (sess : Z) (notify : bool) (ins : list win) : list (list Z) :=
-  enc_wobs ctrls (w_init sess notify) [] :: wtrace ctrls (w_init sess notify) ins.
+Definition wfull_trace (sess : Z) (notify : bool) (ins : list (list Z * win)) : list (list Z) :=
+  enc_wobs [] (w_init sess notify) [] :: wtrace (w_init sess notify) ins.
